@@ -7,9 +7,14 @@ from units import ninja_task as _t
 KIND = _t.KIND
 UNIT = copy.deepcopy({k: v for k, v in _t.UNIT.items() if k not in ('functions',)})
 UNIT['name'] = 'ninja_task_step'
-UNIT['need_enums'] = ['BuildValue::BuildValueKind']
+UNIT['need_enums'] = ['BuildValue::BuildValueKind', 'basic::ProcessStatus']
+UNIT['dumps'] = list(UNIT['dumps']) + ['basic::ProcessResult', 'basic::ProcessStatus']
+UNIT['no_translate'] = list(UNIT['no_translate']) + ['processDiscoveredDependencies', 'incrementFailedCommands']
+UNIT['calls'] = dict(UNIT['calls'], **{'m:BuildContext::incrementFailedCommands': 'ctx_incr_failed', 'fn:makeFailedCommand': 'bv_failed', 'm:BuildValue::makeFailedCommand': 'bv_failed'})
 UNIT.update({
     'stubs': {
+        'NinjaCommandTask_processDiscoveredDependencies': {'ret': '_Bool', 'params': 'struct NinjaCommandTask *self, struct TaskInterface ti', 'requires': [], 'assigns': ['g_deps_calls'],
+                                                          'ensures': ['g_deps_calls == OLD(g_deps_calls) + 1 && (RESULT != 0) == (g_deps_ok != 0)']},
         'NinjaCommandTask_computeCommandResult': {'ret': 'struct BuildValue', 'params': 'struct NinjaCommandTask *self, struct CommandSignature commandHash', 'requires': [], 'assigns': ['g_computes'],
                                                   'ensures': ['g_computes == OLD(g_computes) + 1 && RESULT.kind == %sSuccessfulCommand && RESULT.commandHash.value == commandHash.value && RESULT.numOutputInfos == g_nout && g_nout <= NO' % KIND]},
         'NinjaCommandTask_canUpdateIfNewerWithResult': {'ret': '_Bool', 'params': 'struct NinjaCommandTask *self, struct BuildValue result', 'requires': [], 'assigns': ['g_can_calls'],
@@ -47,5 +52,16 @@ UNIT['functions'] = {
             ('P:C18', '(*__seg_exit != 1) ==> (g_completes == 0 && g_computes == 0)'),
         ],
         'loops': {0: {'assigns': ['i', 'forceChange'], 'invariant': ['i <= e && e == g_nout && !forceChange && !((0 < i && g_info[0].missing) || (1 < i && g_info[1].missing) || (2 < i && g_info[2].missing) || (3 < i && g_info[3].missing))'], 'decreases': 'e - i'}},
+    },
+    # in the process-completion callback: a command that ran successfully but whose discovered dependencies cannot be processed counts as a FAILED command (the count is what
+    # stops the build, order-only dependents included) and completes as failed with the change forced
+    'NinjaCommandTask::executeCommand#depsfail': {
+        'of': 'NinjaCommandTask::executeCommand', 'cname': 'NinjaCommandTask_executeCommand_depsfail_step',
+        'segment': {'kind': 'IfStmt', 'mentions': ['processDiscoveredDependencies', 'makeFailedCommand'], 'exits': True},
+        'requires': ['__CPROVER_is_fresh(self, sizeof(*self))', '__CPROVER_is_fresh(self->context, sizeof(*self->context))', '__CPROVER_is_fresh(__seg_exit, sizeof(int))', '__CPROVER_is_fresh(ti, sizeof(*ti))',
+                     'g_completes == 0 && g_failed_incr == 0 && g_deps_calls == 0'],
+        'assigns': ['*__seg_exit', 'g_completes', 'g_complete_kind', 'g_complete_hash', 'g_complete_force', 'g_tv_kind', 'g_tv_hash', 'g_failed_incr', 'g_deps_calls'],
+        'ensures': [('P:C18', 'g_deps_calls == 1'),
+                    ('P:C18', 'g_deps_ok ? (*__seg_exit == 0 && g_completes == 0 && g_failed_incr == 0) : (*__seg_exit == 1 && g_failed_incr == 1 && g_completes == 1 && g_complete_kind == %sFailedCommand && g_complete_force)' % KIND)],
     },
 }
